@@ -334,7 +334,7 @@ func run(c *hc.Ctx) error {
 			if len(ms) > 0 {
 				j := r.Intn(len(ms))
 				over := hc.Pick(r, 1<<20+1, 1<<20+4, 1<<20+r.Range(1, 4096))
-				if !c.Thorough() && i%200 != 0 {
+				if i%c.N(200, 100) != 0 {
 					// same branch without the megabyte: Bytes says "too big"
 					ms[j].Bytes = over
 				} else {
